@@ -1,6 +1,8 @@
 #!/bin/sh
 # Rebuilds vcheck from /verif sources and /repo's *current working tree* (module replace),
 # with the verif build tag on, then runs one check.  usage: ./run.sh <ID> <quick|thorough> | replay <file>
+# C20 (schedule explorer, Engine B) runs in bin/vcheck-b: the same program built through an
+# overlay of mechanically instrumented copies of the repository's files (build_b.sh).
 set -e
 cd "$(dirname "$0")"
 export GOFLAGS=-mod=mod GOPROXY=off
@@ -8,5 +10,14 @@ export VERIF_ROOT="${VERIF_ROOT:-$(pwd)}"
 # NOTE: GOTOOLCHAIN/GOSUMDB are deliberately left alone: /repo/go.mod needs go1.23.6,
 # which the default go switches to offline from the module cache.
 mkdir -p bin
+engine=a
+case "$1" in
+  C20) engine=b ;;
+  replay) if grep -q '"Property": *"C20"' "$2" 2>/dev/null; then engine=b; fi ;;
+esac
+if [ "$engine" = b ]; then
+  ./build_b.sh || exit 2
+  exec ./bin/vcheck-b "$@"
+fi
 go build -tags verif -o bin/vcheck ./cmd/vcheck || { echo "BUILD FAILED (infrastructure error)"; exit 2; }
 exec ./bin/vcheck "$@"
